@@ -197,7 +197,8 @@ def judge_cli(case, obs):
 
 
 JUDGES = {"parse": judge_parse, "for_index": judge_for_index, "derive": judge_derive, "cli": judge_cli}
-BIG = [2**31, 2**31 + 1, 2**32 - 1, 2**32, 2**32 + 1, 2**64, 2**64 - 1, 2**63, 10**39, 10**40 + 7, 4294967296 + 44, 2**31 + 44, 2**31 + 60]
+BIG = [2**31, 2**31 + 1, 2**32 - 1, 2**32, 2**32 + 1, 2**64, 2**64 - 1, 2**63, 10**39, 10**40 + 7, 4294967296 + 44, 2**31 + 44, 2**31 + 60,
+       2**128, 2**128 + 7, 3 * 2**128 + 7, 2**256, 2**256 + 7, 2**512 + 1, 2**96 + 3, 2**127, 2**129 + 44, 5 * 2**64 + 44, 2**64 + 60, 7 * 2**32 + 1, 10**20, 10**100]
 MALFORMED = ["", "m", "m/", "m//1", "m/1/", "m/1//2", "/1", "1/2", "M/1", "n/1", "m1", "m /1", " m/1", "m/1 ", "m/ 1", "m/1 /2", "m/-1", "m/-0", "m/1.5",
              "m/1,5", "m/1e3", "m/0x10", "m/a", "m/1h", "m/1H", "m/1''", "m/'", "m/''", "m/'1", "m/1'2", "m/+5", "m/01", "m/00", "m/+0", "m/1_000",
              "m/١", "m/1’", "m\\1", "m/1\t", "m/1\n", "m/m/1", "m/44'/60'/0'/0/", "m/44'/60'/0'//0", "44'/60'/0'/0/0", "m/1/-2'", "m/0.0"]
